@@ -91,12 +91,16 @@ class FakeSpnegoCtx:
 
 
 def make_provider(ptype: int, sig_len: int, send_seq: int = 0, recv_seq: int = 0):
-    """A real dpapi_ng._rpc._auth.AuthenticationProvider whose pyspnego context is the toy one."""
-    from dpapi_ng._rpc._auth import AuthenticationProvider
-    from dpapi_ng._rpc._pdu import SecurityProvider
+    """A real dpapi_ng._rpc._auth.AuthenticationProvider (built by its own __init__) whose pyspnego
+    context is the toy one: spnego.client is replaced for the duration of the constructor call."""
+    import dpapi_ng._rpc._auth as A
 
-    p = AuthenticationProvider.__new__(AuthenticationProvider)
-    p.ctx = FakeSpnegoCtx(sig_len, send_seq, recv_seq)
-    p.provider = SecurityProvider(ptype)
-    p._header_length = 0
+    protocol = {9: "negotiate", 10: "ntlm", 16: "kerberos"}[ptype]
+    fake = FakeSpnegoCtx(sig_len, send_seq, recv_seq)
+    real = A.spnego.client
+    A.spnego.client = lambda *a, **kw: fake
+    try:
+        p = A.AuthenticationProvider("user", "pass", "host.test", protocol)
+    finally:
+        A.spnego.client = real
     return p
